@@ -5,7 +5,7 @@
    tokens (text different from "(" and ")") and balanced parenthesis groups, which the scan accepts; no candidate of
    either shape is accepted inside it (type_next_ok). *)
 From Verif Require Import Base Regex Token TokEngine Headers Blocks Spec HeaderSpec LexShapes Grammar GrammarAll.
-From Verif Require Import GrammarProofsParen GrammarProofsBrace GrammarProofsHeaders GrammarAllProofsTok.
+From Verif Require Import GrammarProofsParen GrammarProofsBrace GrammarProofsHeaders GrammarAllProofsTok GrammarAllProofsCit.
 From Verif Require Import GrammarAllProofsSel GrammarAllProofsCand GrammarAllProofsCb GrammarAllProofsItems GrammarAllProofsJava.
 From Coq Require Import Sorted Permutation.
 Open Scope nat_scope.
@@ -406,10 +406,10 @@ Theorem canonical_typescript_citems Pc ts ds : citems Pc any_tokens LTypeScript 
   Permutation (lexical_headers_TypeScript ts) (map header_of ds).
 Proof.
   intros H. unfold lexical_headers_TypeScript.
-  exact (canonical_two_shapes Pc any_tokens LTypeScript cand_function follow_rettype cand_arrow follow_brace
+  refine (canonical_two_shapes_plain Pc any_tokens LTypeScript cand_function follow_rettype cand_arrow follow_brace
            (good_oksel _ _ _ _ (good_function_rettype LTypeScript) (fun w => fsuf_function follow_rettype w fshift_rettype frejects_rettype))
            (good_oksel _ _ _ _ (good_arrow LTypeScript) fsuf_arrow)
-           head_split_typescript ts ds H).
+           head_split_typescript (new_split_none _ _ _ _ _ _ _) ts ds _ _ H); discriminate.
 Qed.
 
 Theorem canonical_typescript ts ds : canonical_program_of LTypeScript ts ds ->
